@@ -93,7 +93,8 @@ impl Round {
             "open" => {
                 let q = st["q"].as_u64().unwrap_or(0) as usize;
                 let r = self.h.open(q);
-                self.out.push(json!({"e": "open_call", "n": "A", "q": Q[q], "ret": r.map(|i| i.to_string()).unwrap_or_else(|e| e)}));
+                let id = r.as_ref().map(|i| *i as i64).unwrap_or(-1);
+                self.out.push(json!({"e": "open_call", "n": "A", "q": Q[q], "id": id, "ret": r.map(|i| i.to_string()).unwrap_or_else(|e| e)}));
             }
             "fc" => {
                 let q = st["q"].as_u64().unwrap_or(0) as usize;
@@ -102,12 +103,25 @@ impl Round {
             }
             "remote" => {
                 let sup: Vec<usize> = st["supported"].as_array().map(|a| a.iter().map(|x| x.as_u64().unwrap() as usize).collect()).unwrap_or(vec![0, 1, 2]);
-                self.h.remote_mode(&sup, if st["stall"].as_bool().unwrap_or(false) { RemoteMode::Stall } else { RemoteMode::Serve });
+                let mode = if st["stall"].as_bool().unwrap_or(false) {
+                    RemoteMode::Stall
+                } else if st["truncate"].as_bool().unwrap_or(false) {
+                    RemoteMode::Truncate
+                } else {
+                    RemoteMode::Serve
+                };
+                self.h.remote_mode(&sup, mode);
             }
             "ropen" => {
                 let q = st["q"].as_u64().map(|x| x as usize);
                 let r = self.h.remote_open(q, st["stall"].as_bool().unwrap_or(false)).await;
                 self.out.push(json!({"e": "fire", "n": "B", "q": q.map(|q| Q[q]).unwrap_or("unknown"), "ret": r.err().unwrap_or("ok".into())}));
+            }
+            "due" => {
+                // every accepted open request must have been answered by now unless the connection ended
+                self.flush(false);
+                let alive = self.h.report().finished.is_none();
+                self.out.push(json!({"e": "answers_due", "n": "A", "alive": alive}));
             }
             "rclose" => {
                 self.out.push(json!({"e": "cut_begin", "px": "remote", "s": 0}));
